@@ -107,6 +107,26 @@ def ser_table(ctx, fn):
     return table, B
 
 
+def _returns_own_discriminant(FB):
+    """a one-block function whose result is the discriminant of its first argument, cast: `fn as_u8(self) -> u8 { self as u8 }`"""
+    if FB is None or len([b for b in FB.live_blocks()]) != 1 or FB.b.get('argc', 0) != 1:
+        return False
+    disc, copies = None, {1}
+    for bb, j, st in FB.stmts():
+        if st['k'] != '=' or st['pl'].get('p'):
+            continue
+        rv = st['rv']
+        if rv['k'] == 'use' and rv['op'].get('k') in ('cp', 'mv') and not rv['op']['pl'].get('p') and rv['op']['pl']['l'] in copies:
+            copies.add(st['pl']['l'])
+        elif rv['k'] == 'discr' and not rv['pl'].get('p') and rv['pl']['l'] in copies:
+            disc = st['pl']['l']
+        elif rv['k'] == 'cast' and rv['op'].get('k') in ('cp', 'mv') and rv['op']['pl']['l'] == disc and st['pl']['l'] == 0:
+            return True
+        elif rv['k'] == 'use' and rv['op'].get('k') in ('cp', 'mv') and rv['op']['pl']['l'] == disc and st['pl']['l'] == 0:
+            return True
+    return False
+
+
 def elem_desc(B, op, vname):
     o = B.origin(op)
     return _desc_origin(B, o, vname)
@@ -122,8 +142,19 @@ def _desc_origin(B, o, vname):
             if c is None:
                 # `tag as i64` of an enum literal handed to a (spliced-in) helper: the discriminant of that variant
                 x = inner
-                while x[0] == 'cast':
-                    x = x[3]
+                for _ in range(6):
+                    if x[0] == 'cast':
+                        x = x[3]
+                    elif x[0] == 'call' and _PROGRAM is not None and isinstance(x[1], str) and x[1].endswith('::from') and 'core::convert::From<' in x[1] and x[1].split(' as ')[0].lstrip('<') in ('i64', 'u64', 'i32', 'u32', 'i128', 'u16', 'usize', 'isize'):
+                        # i64::from(x): a lossless widening
+                        t_ = B.blocks[x[2]]['t']
+                        x = B.origin(t_['args'][0]) if t_['args'] else ('other',)
+                    elif x[0] == 'call' and _PROGRAM is not None and isinstance(x[1], str) and x[1] in _PROGRAM.F.bodies and _returns_own_discriminant(_PROGRAM.B(x[1])):
+                        # an accessor that answers `self as u8`
+                        t_ = B.blocks[x[2]]['t']
+                        x = ('discr', B.origin(t_['args'][0])) if t_['args'] else ('other',)
+                    else:
+                        break
                 if x[0] == 'discr' and isinstance(x[1], tuple) and x[1][0] == 'agg' and x[1][1].get('ak') == 'adt' and _PROGRAM is not None:
                     ad = _PROGRAM.F.adts.get(x[1][1].get('adt'))
                     vi = x[1][1].get('vi')
